@@ -846,7 +846,7 @@ Section White.
     - rewrite fe_bin. destruct (in_bin op) eqn:Ib; [|apply wl_pure].
       apply wl_bindF; [exact IHe1|]. intro x. apply wl_bindF; [exact IHe2|]. intro y.
       unfold apply_bin_fx. cbn [snd].
-      match goal with |- Forall _ (if ?b then _ else _) => destruct b end; repeat constructor. exact Ib.
+      repeat match goal with |- Forall _ (if ?b then _ else _) => destruct b end; repeat constructor. exact Ib.
     - rewrite fe_un. destruct (in_un op); [|apply wl_pure].
       apply wl_bindF; [exact IHe|]. intro v. destruct op; cbn; repeat constructor.
     - destruct op; [rewrite fe_and; apply wl_evand|rewrite fe_or; apply wl_evor]; assumption.
